@@ -83,6 +83,11 @@ func ptr() resource.Pointer { return hx.IntPtr("r") }
 func (c *call) run(ctx context.Context, st state.State) {
 	addTag := func(r resource.Resource) error {
 		r.Metadata().Labels().Set(c.tag(), "1")
+		if c.tag() != "same" {
+			// not idempotent on purpose: a mutation applied twice (a retry on an object that was already
+			// mutated) shows in the value
+			r.(*conformance.IntResource).SetValue(r.(*conformance.IntResource).Value() + 1)
+		}
 		return nil
 	}
 	switch c.kind {
@@ -283,7 +288,11 @@ func check(x *explore.X, st state.State, log *hx.Log, base int, calls []*call) {
 			if !c.isModify() {
 				x.Failf("%s created the resource: %v", who, e)
 			} else {
-				want := fmt.Sprintf("test/int/r@1 owner=%s labels={%s=1,} val=7", ownerOK, c.tag())
+				wantVal := 8
+				if c.tag() == "same" {
+					wantVal = 7
+				}
+				want := fmt.Sprintf("test/int/r@1 owner=%s labels={%s=1,} val=%d", ownerOK, c.tag(), wantVal)
 				if hx.Snap(e.Res) != want {
 					x.Failf("%s created %s, want %s", who, hx.Snap(e.Res), want)
 				}
@@ -300,9 +309,13 @@ func check(x *explore.X, st state.State, log *hx.Log, base int, calls []*call) {
 				x.Failf("%s committed although the expected phase did not hold: on top of %s (phase conflict retried into success)", who, hx.Snap(prev))
 			}
 			wantLabels, wantFins, wantPhase := labelsOf(prev), finsOf(prev), pm.Phase()
+			wantVal := prev.(*conformance.IntResource).Value()
 			switch {
 			case c.addsTag():
 				wantLabels = with(wantLabels, c.tag())
+				if c.tag() != "same" {
+					wantVal++
+				}
 			case c.kind == opAddFin:
 				wantFins = with(wantFins, c.fin())
 			case c.kind == opRmFin:
@@ -313,8 +326,8 @@ func check(x *explore.X, st state.State, log *hx.Log, base int, calls []*call) {
 				x.Failf("%s must not commit anything, committed %v", who, e)
 			}
 			if !slices.Equal(labelsOf(e.Res), wantLabels) || !slices.Equal(finsOf(e.Res), wantFins) || nm.Phase() != wantPhase ||
-				nm.Owner() != pm.Owner() || e.Res.(*conformance.IntResource).Value() != prev.(*conformance.IntResource).Value() {
-				x.Failf("lost or foreign update: %s committed %s on top of %s (want labels %v finalizers %v phase %s)", who, hx.Snap(e.Res), hx.Snap(prev), wantLabels, wantFins, wantPhase)
+				nm.Owner() != pm.Owner() || e.Res.(*conformance.IntResource).Value() != wantVal {
+				x.Failf("lost, foreign or repeated update: %s committed %s on top of %s (want labels %v finalizers %v phase %s value %d)", who, hx.Snap(e.Res), hx.Snap(prev), wantLabels, wantFins, wantPhase, wantVal)
 			}
 		}
 	}
@@ -497,6 +510,10 @@ func build(tier string) []explore.Scenario {
 	} else {
 		for _, t := range [][]opKind{{opUWC, opUWC, opUWC}, {opUWC, opAddFin, opTeardown}, {opModify, opModify, opDestroy}, {opAddFin, opRmFin, opTeardown}, {opUWCSame, opUWCSame, opTeardown}, {opModifySame, opUWCSame, opTeardown}, {opUWCSame, opUWCSame, opDestroy}} {
 			out = append(out, scenario(t, initRunning, false, []int{0, 1, 2}))
+		}
+		// creation races: a Modify that loses the race to create, while a third caller destroys the winner
+		for _, t := range [][]opKind{{opOwnedModify, opModify, opDestroy}, {opModify, opSafeModify, opDestroy}, {opOwnedModify, opOwnedModify, opDestroy}} {
+			out = append(out, scenario(t, initAbsent, false, []int{0, 1, 2}))
 		}
 	}
 	return out
